@@ -1,34 +1,39 @@
 #!/bin/bash
-# tools_evalmut.sh <Cxx> <m1|m2> [props...]  -- confirm a candidate mutation and run checks against it
-# 1. in a scratch worktree of /repo HEAD: patch applies, 161 tests pass, demo fails with / passes without
-# 2. apply to /repo, run ./check <prop> quick for the given properties (default: the target one), undo
-id=$1; m=$2; shift 2; props=${@:-$id}
-src=${MUTDIR:-/tmp/mut}/$id.out/$m
-wt=/tmp/mutcheck
-out=/root/scratch/${MUTTAG:-}evalmut_${id}_${m}.log
-: > $out
-git -C /repo worktree remove --force $wt >/dev/null 2>&1
-git -C /repo worktree add -q $wt HEAD || exit 2
-cd $wt
-if ! git apply --3way $src/patch.diff >>$out 2>&1; then echo "$id $m: PATCH-DOES-NOT-APPLY"; git -C /repo worktree remove --force $wt; exit 3; fi
-git diff HEAD > /root/scratch/${MUTTAG:-}evalmut_${id}_${m}.patch
-feat=""
-if grep -q "serde" $src/demo.rs; then feat="--features serde"; fi
+# tools_evalmut.sh <dir with patch.diff + demo.rs> <label> [tier=quick] <props...>
+#
+# Confirm a candidate property-breaking change and run checks against it, entirely on scratch
+# copies (a git worktree of /repo HEAD and a copy of /verif whose path dependency points at
+# it) under $SCRATCH (default /root/scratch/evalmut): /repo and /verif are not touched.
+#  1. patch applies; the crate's suite passes with it; demo fails with / passes without
+#  2. ./check <prop> <tier> for the given properties in the scratch copy of /verif
+# The normalised patch (git diff against HEAD) is left in $SCRATCH/<label>.patch.
+src=$1; label=$2; shift 2
+tier=quick; if [ "$1" = quick ] || [ "$1" = thorough ]; then tier=$1; shift; fi
+props=$@
+SCRATCH=${SCRATCH:-/root/scratch/evalmut}
+mkdir -p $SCRATCH
+wt=$SCRATCH/repo
+if [ ! -d $wt ]; then git -C /repo worktree prune; git -C /repo worktree add -q --detach $wt HEAD || exit 2; fi
+cd $wt && git checkout -q --detach $(git -C /repo rev-parse HEAD) && git reset -q --hard && git clean -fdq -e target
+if ! git apply --3way $src/patch.diff >/dev/null 2>&1; then echo "$label: PATCH-DOES-NOT-APPLY"; exit 3; fi
+git diff HEAD > $SCRATCH/$label.patch
+feat=""; if grep -q "serde" $src/demo.rs; then feat="--features serde"; fi
 t=$(CARGO_NET_OFFLINE=true cargo test --offline 2>&1 | grep -E "^test result" | awk '{p+=$4; f+=$6} END {print p" passed "f" failed"}')
 cp $src/demo.rs tests/mut_demo.rs
-CARGO_NET_OFFLINE=true cargo test --offline $feat --test mut_demo >>$out 2>&1; with=$?
+CARGO_NET_OFFLINE=true cargo test --offline $feat --test mut_demo >$SCRATCH/$label.demo_with.log 2>&1; with=$?
 git reset -q --hard HEAD
-CARGO_NET_OFFLINE=true cargo test --offline $feat --test mut_demo >>$out 2>&1; without=$?
-cd /; git -C /repo worktree remove --force $wt
-echo "$id $m: suite[$t] demo_with_patch_rc=$with demo_without_rc=$without"
-# 3. run checks on /repo
-cd /repo || exit 2
-if [ -n "$(git status --porcelain)" ]; then echo "/repo not clean"; exit 2; fi
-git apply /root/scratch/${MUTTAG:-}evalmut_${id}_${m}.patch || { echo "apply to /repo failed"; exit 3; }
+cp $src/demo.rs tests/mut_demo.rs
+CARGO_NET_OFFLINE=true cargo test --offline $feat --test mut_demo >$SCRATCH/$label.demo_without.log 2>&1; without=$?
+rm -f tests/mut_demo.rs
+echo "$label: suite[$t] demo_with_patch_rc=$with demo_without_rc=$without"
+git apply $SCRATCH/$label.patch || exit 3
+rsync -a --delete --exclude target --exclude .git --exclude replays --exclude evidence /verif/ $SCRATCH/verif/
+mkdir -p $SCRATCH/verif/evidence $SCRATCH/verif/replays
+sed -i "s#path = \"/repo\"#path = \"$wt\"#" $SCRATCH/verif/sim/Cargo.toml
 for p in $props; do
   s=$(date +%s)
-  (cd /verif && ./check $p quick) > /root/scratch/${MUTTAG:-}evalmut_${id}_${m}_$p.log 2>&1; rc=$?
+  ( cd $SCRATCH/verif && ./check $p $tier ) > $SCRATCH/${label}_$p.log 2>&1; rc=$?
   e=$(date +%s)
-  echo "   check $p quick: rc=$rc ($((e-s))s) $(grep -c '^VIOLATION' /root/scratch/${MUTTAG:-}evalmut_${id}_${m}_$p.log) violations: $(grep -A1 '^VIOLATION' /root/scratch/${MUTTAG:-}evalmut_${id}_${m}_$p.log | grep class= | head -2 | cut -c1-200 | tr '\n' '|')"
+  echo "   check $p $tier: rc=$rc ($((e-s))s) $(grep -c '^VIOLATION' $SCRATCH/${label}_$p.log) violations: $(grep -A1 '^VIOLATION' $SCRATCH/${label}_$p.log | grep class= | head -2 | cut -c1-220 | tr '\n' '|')"
 done
-git -C /repo checkout -- . ; git -C /repo status --porcelain | head -3
+cd $wt && git reset -q --hard HEAD
